@@ -673,12 +673,21 @@ def usableSignatureCandidate (tagOf : VKey → Nat) (sig : VSig) (k : VKey) : Bo
   tagOf k == sig.tag && k.alg == sig.alg && k.cls == sig.cls && equalFold k.name sig.signer
     && k.proto == 3 && k.flags / 256 % 2 == 1
 
-/-- `signatureMatchesRRset`. -/
+/-- `wildcardExpanded`: the RRSIG counts fewer labels than the owner has, the
+leading `*` label of a wildcard owner itself not counted. -/
+def wildcardExpanded (owner : Bytes) (sigLabels : Nat) : Bool :=
+  let labels := countLabel owner
+  let labels := if owner.take 2 == [42, 46] then labels - 1 else labels
+  decide (sigLabels < labels)
+
+/-- `signatureMatchesRRset`; a denial record (NSEC 47, NSEC3 50) is never the
+product of wildcard expansion. -/
 def signatureMatchesRRset (sig : VSig) (set : List VRec) : Bool :=
   match set with
   | [] => false
   | h :: _ =>
-    isRRset (hdrsOf set) && h.cls == sig.cls && h.typ == sig.typ && decide (sig.labels ≤ countLabel h.name)
+    !((sig.typ == 47 || sig.typ == 50) && wildcardExpanded h.name sig.labels)
+      && isRRset (hdrsOf set) && h.cls == sig.cls && h.typ == sig.typ && decide (sig.labels ≤ countLabel h.name)
       && equalFold h.name sig.name && nameInZone (canonicalName h.name) (canonicalName sig.signer)
 
 /-- `verifyOneSig` (`true` = nil error): `cv` is `cryptoVerify`, `inPeriod`
